@@ -84,7 +84,19 @@ class P7(HasTraits):
     val = DelegatesTo("d", prefix="x")
 
 
-FIXTURES = [P1, P2, P3, P4, P5, P6, P7]
+class P8(HasTraits):
+    """wildcards added AFTER the class was created, in an order and with lengths that exercise the ordering of the table:
+    one character shorter than / a prefix of an existing one, longer than all, in between"""
+    value__ = Int             # prefix 'value_'
+
+
+P8.add_class_trait("value_", Str())          # prefix 'value': one character shorter than, and a prefix of, 'value_'
+P8.add_class_trait("va_", Float())           # prefix 'va'
+P8.add_class_trait("value_x_y_", Any())      # prefix 'value_x_y': longer than all
+P8.add_class_trait("valu_", Str())           # prefix 'valu': in between
+
+
+FIXTURES = [P1, P2, P3, P4, P5, P6, P7, P8]
 ALPHABET = z3.Star(z3.Union(z3.Range("a", "z"), z3.Range("A", "Z"), z3.Range("0", "9"), z3.Re("_")))
 
 
@@ -96,6 +108,9 @@ def modelled(cls):
     """subclass of the fixture whose _trait (a C call) is the model; declares nothing, so the prefix table is the base's"""
     if cls not in _MODELLED:
         _MODELLED[cls] = type(cls.__name__ + "M", (cls,), {"_trait": _trait_model})
+        # the subclass gets a re-derived (re-sorted) copy of the table: look at the fixture's OWN table, as built by the code
+        # that declared / added its wildcards
+        _MODELLED[cls].__prefix_traits__ = cls.__prefix_traits__
     return _MODELLED[cls]
 
 
@@ -284,7 +299,7 @@ def policy_harness(cname, k):
                     inst[new] = o._instance_traits()[new]
             o.on_trait_change(on_added, "trait_added")
         for step in range(k):
-            op = ["read", "write", "delete", "add_trait", "remove_trait"][ex.choice("op%d" % step, 5)]
+            op = ["read", "write", "delete", "add_trait", "remove_trait", "write_bad"][ex.choice("op%d" % step, 6)]
             name = names[ex.choice("name%d" % step, len(names))]
             if op == "add_trait":
                 if name in o._class_traits() and kind_of(o._class_traits()[name]) != "trait":
@@ -298,7 +313,9 @@ def policy_harness(cname, k):
             if op == "remove_trait":
                 if name not in inst:
                     continue
-                o.remove_trait(name)
+                removed = o.remove_trait(name)
+                ex.check(removed is True and name not in o._instance_traits(),
+                         "remove_trait removes the instance trait (whether or not a value was ever stored) and says so")
                 inst.pop(name, None)
                 written.pop(name, None)
                 if it is not None:
@@ -322,6 +339,23 @@ def policy_harness(cname, k):
             rule, tr = spec_governing(cls, o, name, inst)
             pol = kind_of(tr)
             value = "s%d" % step if (rule == "instance" or (pol == "trait" and isinstance(tr.handler, Str))) else 7 + step
+            if op == "write_bad":
+                # a value of the wrong type for a TYPED governing trait (Int / Str, also as the type of an Event): rejected
+                # whether or not anybody listens, and nothing changes
+                typed = tr.handler if pol == "trait" else (getattr(tr.handler, "trait", None) if pol == "event" else None)
+                typed = getattr(typed, "handler", typed)
+                if isinstance(typed, Str):
+                    bad = 5
+                elif isinstance(typed, Int):
+                    bad = "not-an-int"
+                else:
+                    continue
+                before = dict(o.__dict__)
+                res = access(ex, it, o, "write", name, bad)
+                trace.append("write_bad:%s:%s" % (name, res[0]))
+                ex.check(res == ("raised", "TraitError") and dict(o.__dict__) == before,
+                         "a value invalid for the governing trait is rejected with TraitError")
+                continue
             before = dict(o.__dict__)
             res = access(ex, it, o, op, name, value)
             trace.append("%s:%s:%s" % (op, name, res[0] if res[0] == "raised" else "ok"))
